@@ -57,9 +57,20 @@ pub enum Wrap {
   EmptyGroup,
   /// a plain copy placed in front of an otherwise correct message (SRTPS_PREFIX no longer first)
   PlainInFront,
+  /// no protection of any kind, and the submessage names one of the three bootstrap built-in endpoints
+  /// (0 SPDP, 1 stateless, 2 volatile-secure) as its *sender*: the exemption of those topics is about the
+  /// endpoint that receives, not about what the sender claims to be
+  PlainBootstrapSender(u8),
+  /// everything the governance document requires, behind an INFO_DST naming GUIDPREFIX_UNKNOWN ("for every
+  /// participant"): has to arrive like AsRequired
+  AfterInfoDstUnknown,
 }
 
-pub const WRAPS: [Wrap; 12] = [
+pub const WRAPS: [Wrap; 16] = [
+  Wrap::PlainBootstrapSender(0),
+  Wrap::PlainBootstrapSender(1),
+  Wrap::PlainBootstrapSender(2),
+  Wrap::AfterInfoDstUnknown,
   Wrap::Plain,
   Wrap::AsRequired,
   Wrap::NoMessageLevel,
@@ -190,6 +201,33 @@ pub fn build(p: &Pipe, f: usize, kind: Kind, wrap: Wrap, sn: i64, unknown_id: bo
   match wrap {
     Wrap::Plain => Some((bytes_of(&plain(p, f, kind, sn, unknown_id, false)), have(false, false, false))),
     Wrap::AsRequired => Some((full(true, true, true, None)?, have(true, true, true))),
+    Wrap::PlainBootstrapSender(i) => {
+      use crate::{messages::submessages::submessages::{ReaderSubmessage, WriterSubmessage}};
+      let (rd, wr) = [
+        (EntityId::SPDP_BUILTIN_PARTICIPANT_READER, EntityId::SPDP_BUILTIN_PARTICIPANT_WRITER),
+        (EntityId::P2P_BUILTIN_PARTICIPANT_STATELESS_READER, EntityId::P2P_BUILTIN_PARTICIPANT_STATELESS_WRITER),
+        (EntityId::P2P_BUILTIN_PARTICIPANT_VOLATILE_SECURE_READER, EntityId::P2P_BUILTIN_PARTICIPANT_VOLATILE_SECURE_WRITER),
+      ][i as usize % 3];
+      let mut m = plain(p, f, kind, sn, unknown_id, false);
+      for sm in m.submessages.iter_mut() {
+        match &mut sm.body {
+          SubmessageBody::Reader(ReaderSubmessage::AckNack(a, _)) => a.reader_id = rd,
+          SubmessageBody::Reader(ReaderSubmessage::NackFrag(a, _)) => a.reader_id = rd,
+          SubmessageBody::Writer(WriterSubmessage::Data(d, _)) => d.writer_id = wr,
+          SubmessageBody::Writer(WriterSubmessage::DataFrag(d, _)) => d.writer_id = wr,
+          SubmessageBody::Writer(WriterSubmessage::Heartbeat(d, _)) => d.writer_id = wr,
+          SubmessageBody::Writer(WriterSubmessage::Gap(d, _)) => d.writer_id = wr,
+          _ => {}
+        }
+      }
+      Some((bytes_of(&m), have(false, false, false)))
+    }
+    Wrap::AfterInfoDstUnknown => {
+      let mut m = plain(p, f, kind, sn, unknown_id, true);
+      let dst = MessageBuilder::new().dst_submessage(LE, crate::structure::guid::GuidPrefix::UNKNOWN).add_header_and_build(p.s.prefix()).submessages.remove(0);
+      m.submessages.insert(0, dst);
+      Some((p.protect(f, &m, true, true).ok()?, have(true, true, true)))
+    }
     Wrap::NoMessageLevel => req.rtps.then(|| full(true, true, false, None)).flatten().map(|b| (b, have(false, true, true))),
     Wrap::NoSubmessageLevel => req.meta.then(|| full(true, false, true, None)).flatten().map(|b| (b, have(true, false, true))),
     Wrap::NoPayloadLevel => req.data.then(|| full(false, true, true, None)).flatten().map(|b| (b, have(true, true, false))),
@@ -391,7 +429,7 @@ pub fn run_gov(gov: &str, topics: &[&str], kinds: &[Kind]) -> Stats {
               });
             }
             // an intact group (TwoBodies has none) is not required to survive a malformed sequence
-          } else if wrap == Wrap::AsRequired || wrap == Wrap::Plain {
+          } else if wrap == Wrap::AsRequired || wrap == Wrap::Plain || wrap == Wrap::AfterInfoDstUnknown {
             st.must_deliver += 1;
             if !eff {
               st.problems.push(Problem {
